@@ -37,6 +37,7 @@ type sched struct {
 	mus      map[*value]*muState
 	onces    map[*value]bool
 	schedChoice bool // select / wakeup order are choice points
+	closeYield  bool // with schedChoice: closing a channel is a scheduling point too
 	files       map[*value]*memFile
 	fileOrder   []*value
 	hashes      []hashCall
@@ -332,6 +333,11 @@ func (i *interpreter) chanClose(ch *gchan) {
 		i.evlog.closeEv[ch] = e.id
 	}
 	i.sc.bump()
+	if i.sc.schedChoice && i.sc.closeYield {
+		// closing a channel wakes its receivers: with scheduler exploration on, who runs
+		// next (the closer or a woken goroutine) is a choice point
+		i.yield(false)
+	}
 }
 
 func (i *interpreter) recvEvent(ch *gchan, ok bool) {
